@@ -11,6 +11,8 @@ package conf
 //                                (copy numbered jointly with the original: a cell id below the number of
 //                                cells of the original IS a cell of the original; alias = slots of the copy
 //                                whose mutation changed a fingerprint of the original taken before)
+//   clonem <Method> <name> <seed> <V>   the same through another copy constructor found by reflection
+//                                (parameterless method of *Conf / *Path returning the same type)
 //   reject <seed> <slot> <V>     loader-built Conf #seed; Clone; PatchPath(first path, source=bogus);
 //                                Validate rejects; answer "changed=<0|1>" (fingerprint of the original)
 
@@ -702,8 +704,32 @@ func verifC11Build(name string, seed uint64) reflect.Value {
 	return p
 }
 
+// every parameterless method of *Conf / *Path that returns a *Conf / *Path is a copy constructor
+func verifC11Constructors(name string) []string {
+	var t reflect.Type
+	switch name {
+	case "conf", "lconf":
+		t = reflect.TypeOf(&Conf{})
+	case "path":
+		t = reflect.TypeOf(&Path{})
+	default:
+		return nil
+	}
+	var out []string
+	for i := 0; i < t.NumMethod(); i++ {
+		m := t.Method(i)
+		if m.Type.NumIn() == 1 && m.Type.NumOut() == 1 && m.Type.Out(0) == t && m.Name != "Clone" {
+			out = append(out, m.Name)
+		}
+	}
+	return out
+}
+
 // the copy, as a pointer to a fresh variable (Conf.Clone / Path.Clone do exactly that)
-func verifC11Clone(name string, p reflect.Value) reflect.Value {
+func verifC11Clone(name string, p reflect.Value, method string) reflect.Value {
+	if method != "Clone" {
+		return p.MethodByName(method).Call(nil)[0]
+	}
 	switch name {
 	case "conf", "lconf":
 		return reflect.ValueOf(p.Interface().(*Conf).Clone())
@@ -732,7 +758,12 @@ func verifC11Exec(op string) string {
 		}
 		return "ok"
 
-	case "clone":
+	case "clone", "clonem":
+		method := "Clone"
+		if f[0] == "clonem" {
+			method = f[1]
+			f = f[1:]
+		}
 		name := f[1]
 		var seed uint64
 		fmt.Sscan(f[2], &seed)
@@ -743,7 +774,7 @@ func verifC11Exec(op string) string {
 		}
 		n := len(e.ids)
 		fp0 := verifC11Fingerprint(p.Elem())
-		cp := verifC11Clone(name, p)
+		cp := verifC11Clone(name, p, method)
 		if verifC11Fingerprint(p.Elem()) != fp0 {
 			return "clone-changed-original"
 		}
@@ -822,6 +853,9 @@ func verifC11Gen(r *verifutil.Rand, i int, thorough bool) []string {
 		p := verifC11Build(name, seed)
 		_, enc := verifC11EncodeOrig(p)
 		ops = append(ops, fmt.Sprintf("clone %s %d %s", name, seed, enc))
+		for _, m := range verifC11Constructors(name) {
+			ops = append(ops, fmt.Sprintf("clonem %s %s %d %s", m, name, seed, enc))
+		}
 		if name == "lconf" {
 			_, slot := verifC11RejectTarget(p.Interface().(*Conf))
 			ops = append(ops, fmt.Sprintf("reject %d %s %s", seed, slot, enc))
@@ -840,6 +874,8 @@ func TestVerifC11(t *testing.T) {
 				return "reset/" + f[1]
 			case "reject":
 				return "reject/" + impl
+			case "clonem":
+				f = f[1:]
 			}
 			cl := "independent"
 			if !strings.HasSuffix(impl, "alias=-") {
